@@ -26,6 +26,8 @@ int main(int argc, char** argv)
     add("C15", api::prop_c15, 3, 24, 260);
     add("C16", api::prop_c16, 3, 16, 260);
     add("C14", api::prop_c14, 2, 6, 260, 120);
+    add("C02.e2e", api::prop_c02_e2e, 2, 2, 260);
+    add("C04.api", api::prop_c04_api, 2, 2, 260);
     add("REG", api::prop_reg, 1, 1, 2, 120);
     return vf::pbt_main(argc, argv, specs);
 }
